@@ -498,6 +498,25 @@ func checkC09() int {
 	for _, p := range genEqProbes(subSeed(c.Seed, 9090), c.pick(100, 2000), c.pick(8, 12)) {
 		add("eq-probe", p.text)
 	}
+	// G2 environments, three fifths with an injected defect (alias cycles with alias tails
+	// leading into them, undefined names, duplicate definitions, bad modes ...), half of them
+	// with a function that mentions a definition: a verdict is due on ill-formed definitions too
+	rd := rand.New(rand.NewSource(subSeed(c.Seed, 9191)))
+	for i, n := 0, c.pick(600, 10000); i < n; i++ {
+		defs, defect := rtypes.GenDefs(rd, 60)
+		t := rtypes.DefsText(defs)
+		if i%2 == 0 {
+			d := defs[rd.Intn(len(defs))].Name
+			t += "let f(x : " + d + ") : " + d + " = fwd self x\n"
+		}
+		if defect == "" {
+			defect = "none"
+		}
+		if strings.HasPrefix(defect, "alias-cycle") {
+			defect = "alias-cycle"
+		}
+		add("G2-defs:"+defect, t)
+	}
 	// users of deep chains of branching definitions (type equality must stay polynomial)
 	for _, n := range []int{12, 24, 40} {
 		defs := rtypes.DeepChains(n, 3, "")
